@@ -133,6 +133,46 @@ def o7_result(all_values, total, mean, median, X, labels, mus, thetas, rtol=1e-9
     return "ok" if ok else "bad"
 
 
+def o9_accounting(res, labels, K, beta, rtol=1e-9):
+    """O9 (long single-series runs with a scalar switching cost): the accounting identities of C06 in floating point
+    - one entry per labelled point; sum / mean / median of exactly those entries; per-cluster mean / median over the
+    cluster's own points (0 if none); cost = -sum + beta * (number of label changes)."""
+    import math
+    all_ll = np.asarray([float(x) for x in res.all_log_likelihood], dtype=np.float64)
+    n = len(labels)
+    if len(all_ll) != n:
+        return "bad"
+    if not np.isfinite(all_ll).all():
+        return "inc"
+    mag = float(np.sum(np.abs(all_ll))) + 1.0
+    tol = rtol * mag
+    if abs(float(res.overall_log_likelihood) - math.fsum(all_ll)) > tol:
+        return "bad"
+    if abs(float(res.overall_log_likelihood_mean) - math.fsum(all_ll) / n) > tol / n + 1e-12:
+        return "bad"
+    if abs(float(res.overall_log_likelihood_median) - float(np.median(all_ll))) > rtol * (1.0 + float(np.max(np.abs(all_ll)))):
+        return "bad"
+    switches = sum(1 for a, b in zip(labels, labels[1:]) if a != b)
+    if abs(float(res.label_assignment_cost) - (-math.fsum(all_ll) + float(beta) * switches)) > tol + rtol * abs(float(beta)) * switches:
+        return "bad"
+    # per-cluster aggregates: the result lists entries cluster by cluster (ascending id), points in order
+    sizes = [labels.count(k) for k in range(K)]
+    pos = 0
+    for k in range(K):
+        part = all_ll[pos:pos + sizes[k]]
+        pos += sizes[k]
+        m, md = float(res.cluster_log_likelihood_mean[k]), float(res.cluster_log_likelihood_median[k])
+        if sizes[k] == 0:
+            if m != 0.0 or md != 0.0:
+                return "bad"
+        else:
+            if abs(m - math.fsum(part) / sizes[k]) > rtol * (1.0 + float(np.max(np.abs(part)))):
+                return "bad"
+            if abs(md - float(np.median(part))) > rtol * (1.0 + float(np.max(np.abs(part)))):
+                return "bad"
+    return "ok"
+
+
 def floor_eps(mat, eps):
     out = np.array(mat, dtype=np.float64, copy=True)
     n, m = out.shape
